@@ -176,7 +176,7 @@ func (w *l1World) c11Pre() map[uint64]c11Pre {
 
 func TestC11Rapid(t *testing.T) {
 	rec := evid.For("C11")
-	runRapid(t, 250, 6000, func(rt *rapid.T) {
+	runRapid(t, 100, 6000, func(rt *rapid.T) {
 		c := rec.Begin()
 		w := newL1World(rt, l1Cfg{weights: c11Weights, maxBridges: 3, badCfgProb: 0,
 			periods: []time.Duration{time.Second, 10 * time.Second, time.Minute, 500 * time.Millisecond, time.Nanosecond}, offsets: []time.Duration{-time.Second, -time.Nanosecond, 0, time.Nanosecond, time.Second, 2 * time.Second}})
